@@ -21,7 +21,7 @@ for c, ls in zip(cases, per):
     if hasattr(mod, "canon_model"):
         m = mod.canon_model(m)
     i = mod.observe(c)
-    if i != m and "unsupported" not in m:
+    if i != m and "unsupported" not in m and i != "unsupported":
         tot += 1
         if shown < n:
             shown += 1
